@@ -561,6 +561,25 @@ func evalCall(n *Node, env *Env) (any, error) {
 			return clearCutFloat(x)
 		}
 		return nil, domain("is_float(%T)", args[0])
+	case "substr":
+		// README: substring of value from `start` position to `end` position
+		// (spec.md: substr(value, 2, 3) is one character) = value[start:end)
+		s, err := text(0)
+		if err != nil {
+			return nil, err
+		}
+		a, ok1 := args[1].(int64)
+		b, ok2 := args[2].(int64)
+		if !ok1 || !ok2 || a < 0 || b < a {
+			return nil, domain("substr positions")
+		}
+		if b > int64(len(s)) {
+			b = int64(len(s))
+		}
+		if a >= b {
+			return "", nil
+		}
+		return s[a:b], nil
 	case "split":
 		s, err := text(0)
 		if err != nil {
